@@ -36,30 +36,54 @@ theorem acc_eq_foldl {β : Type} [Add β] (z : β) (n : Nat) (f : Nat → β) :
   | zero => rfl
   | succ n ih => simp [Fir.acc, ih, List.range_succ]
 
+/-- `for (k < n) a[i] = g(a[i], k);` for ANY loop body `f` that does this on the counter values `k < n`: the cell ends up holding the
+value accumulated from its old content (the accumulate-into-the-cell way of writing a sum) -/
+theorem foldl_range_acc_cell {β : Type} (d : β) (g : β → Nat → β) (i n : Nat) (f : Array β → Nat → Array β)
+    (h : ∀ a k, k < n → f a k = a.setIfInBounds i (g (a.getD i d) k)) (a : Array β) :
+    (List.range n).foldl f a = a.setIfInBounds i ((List.range n).foldl g (a.getD i d)) := by
+  rw [foldl_range_congr f _ n h, foldl_acc_cell d g i]
+
+/-- `a[i] = z; for (k ∈ l) a[i] = g(a[i], k);` leaves the array that `acc = z; for (k ∈ l) acc = g(acc, k); a[i] = acc;` leaves
+(accumulate-into-the-cell = accumulate-into-a-local-then-store), also when `i` is outside the array (both leave it alone) -/
+theorem set_foldl_acc_init {β : Type} (d z : β) (r : Array β) (i : Nat) (g : β → Nat → β) (l : List Nat) :
+    (r.setIfInBounds i z).setIfInBounds i (l.foldl g ((r.setIfInBounds i z).getD i d)) = r.setIfInBounds i (l.foldl g z) := by
+  rw [Array.setIfInBounds_setIfInBounds]
+  by_cases hi : i < r.size
+  · rw [getD_setIfInBounds]; simp [hi]
+  · rw [Array.setIfInBounds_eq_of_size_le (Nat.le_of_not_lt hi), Array.setIfInBounds_eq_of_size_le (Nat.le_of_not_lt hi)]
+
 noncomputable section
 
-/-- row `i` of `_conv<real_t>`: `r[i] = 0; for (k < nh) r[i] += x[i + k] * conj(h[nh - k - 1]);` -/
+/-- row `i` of `_conv<real_t>`: `r[i] = Σ_{k < nh} x[i + k] * conj(h[nh - k - 1])`, summed in the order `k = 0, 1, …` from `0`.
+The proof does not depend on HOW the C++ writes the sum — it accepts both
+* accumulate into the cell: `r[i] = 0; for (k < nh) r[i] += x[i + k] * conj(h[nh - k - 1]);` (`foldl_range_acc_cell`), and
+* accumulate into a local, store afterwards: `T acc = 0; for (k < nh) acc += …; r[i] = acc;`, `x[i + k]` possibly read through a
+  shifted pointer `px = x + i` as `px[k]` (`foldl_range_congr`),
+nor on the order / names of the generated loop function's arguments (it is found by unification), nor on the spelling of the
+three index expressions (they only have to DENOTE `i`, `i + k`, `nh - k - 1` for `k < nh`: `omega`).  What it does depend on:
+the operands, their order, the zero start value, the bounds of both loops. -/
 theorem convR_row (x h r : Array ℝ) (i : ℕ) :
     Gen.firRConvKernel_loop2 (h.size : Int) x h r i =
       r.setIfInBounds i (Fir.acc (0 : ℝ) h.size fun k => x.getD (i + k) 0 * h.getD (h.size - k - 1) 0) := by
   unfold Gen.firRConvKernel_loop2
   simp only [Int.ofNat_eq_natCast, Int.toNat_natCast, ptrSet_natCast, fn_ofInt, Int.cast_zero]
-  have hstep : ∀ (a : Array ℝ) (k : ℕ), k < h.size →
-      Gen.firRConvKernel_loop1 (i : Int) x h (h.size : Int) a k =
-        a.setIfInBounds i (a.getD i 0 + x.getD (i + k) 0 * h.getD (h.size - k - 1) 0) := by
-    intro a k hk
-    simp only [Gen.firRConvKernel_loop1, Gen.zeroR, Gen.conjr, Int.ofNat_eq_natCast, fn_ofInt, Int.cast_zero]
-    -- whatever way the C++ spells the three index expressions: they denote `i`, `i + k`, `nh - k - 1`
-    rw [ptrGet_eq 0 x _ (i + k) (by omega), ptrGet_eq 0 h _ (h.size - k - 1) (by omega), ptrGet_eq 0 a _ i (by omega),
-      ptrSet_eq a _ i _ (by omega)]
-    try first | rfl | (congr 2; ring)
-  rw [foldl_range_congr _ (fun (a : Array ℝ) k => a.setIfInBounds i (a.getD i 0 + x.getD (i + k) 0 * h.getD (h.size - k - 1) 0))
-    h.size hstep]
-  rw [foldl_acc_cell (0 : ℝ) (fun v k => v + x.getD (i + k) 0 * h.getD (h.size - k - 1) 0) i, Array.setIfInBounds_setIfInBounds,
-    acc_eq_foldl]
-  by_cases hi : i < r.size
-  · rw [getD_setIfInBounds]; simp [hi]
-  · rw [Array.setIfInBounds_eq_of_size_le (Nat.le_of_not_lt hi), Array.setIfInBounds_eq_of_size_le (Nat.le_of_not_lt hi)]
+  rw [acc_eq_foldl]
+  first
+  | -- accumulate into the cell `r[i]`
+    (refine Eq.trans (foldl_range_acc_cell (0 : ℝ) (fun v k => v + x.getD (i + k) 0 * h.getD (h.size - k - 1) 0) i h.size _ ?_ _)
+       (set_foldl_acc_init (0 : ℝ) 0 r i _ _)
+     intro a k hk
+     simp only [Gen.firRConvKernel_loop1, Gen.zeroR, Gen.conjr, Int.ofNat_eq_natCast, fn_ofInt, Int.cast_zero]
+     -- whatever way the C++ spells the three index expressions: they denote `i`, `i + k`, `nh - k - 1`
+     rw [ptrGet_eq 0 x _ (i + k) (by omega), ptrGet_eq 0 h _ (h.size - k - 1) (by omega), ptrGet_eq 0 a _ i (by omega),
+       ptrSet_eq a _ i _ (by omega)]
+     first | done | rfl | (congr 2; ring))
+  | -- accumulate into a local scalar, store it into `r[i]` after the loop
+    (refine congrArg (r.setIfInBounds i) (foldl_range_congr _ (fun v k => v + x.getD (i + k) 0 * h.getD (h.size - k - 1) 0) h.size ?_ 0)
+     intro v k hk
+     simp only [Gen.firRConvKernel_loop1, Gen.zeroR, Gen.conjr, Int.ofNat_eq_natCast, fn_ofInt, Int.cast_zero]
+     rw [ptrGet_eq 0 x _ (i + k) (by omega), ptrGet_eq 0 h _ (h.size - k - 1) (by omega)]
+     first | done | rfl | ring)
 
 /-- **`FirFilter<real_t>::conv`, generated = model** for every pair of arrays (the empty result included) -/
 theorem firRConv_eq (x h : Array ℝ) : Gen.firRConv x h = Fir.conv (0 : ℝ) id x h := by
@@ -157,27 +181,30 @@ theorem gen_fir_eq_real (h x : Array ℝ) (hh : 1 ≤ h.size) :
 theorem gzeroC_eq : (Gen.zeroC : Cx ℝ) = 0 := by apply Cx.ext' <;> simp [Gen.zeroC]
 theorem fill0C_eq : (Cx.mk (Fn.ofInt (0 : Int)) (Fn.ofInt (0 : Int)) : Cx ℝ) = 0 := by apply Cx.ext' <;> simp
 
-/-- row `i` of `_conv<cmplx_t>` -/
+/-- row `i` of `_conv<cmplx_t>` (as `convR_row`: both ways of writing the sum are accepted; the taps enter conjugated) -/
 theorem convC_row (x h r : Array (Cx ℝ)) (i : ℕ) :
     Gen.firCConvKernel_loop2 (h.size : Int) x h r i =
       r.setIfInBounds i (Fir.acc (0 : Cx ℝ) h.size fun k => x.getD (i + k) 0 * Cx.conj (h.getD (h.size - k - 1) 0)) := by
   unfold Gen.firCConvKernel_loop2
   simp only [Int.ofNat_eq_natCast, Int.toNat_natCast, ptrSet_natCast, fill0C_eq]
-  have hstep : ∀ (a : Array (Cx ℝ)) (k : ℕ), k < h.size →
-      Gen.firCConvKernel_loop1 (i : Int) x h (h.size : Int) a k =
-        a.setIfInBounds i (a.getD i 0 + x.getD (i + k) 0 * Cx.conj (h.getD (h.size - k - 1) 0)) := by
-    intro a k hk
-    simp only [Gen.firCConvKernel_loop1, gzeroC_eq, Gen.conjc, Cx.addAssign, Int.ofNat_eq_natCast]
-    rw [ptrGet_eq 0 x _ (i + k) (by omega), ptrGet_eq 0 h _ (h.size - k - 1) (by omega), ptrGet_eq 0 a _ i (by omega),
-      ptrSet_eq a _ i _ (by omega)]
-    try first | rfl | (congr 2; ring)
-  rw [foldl_range_congr _ (fun (a : Array (Cx ℝ)) k =>
-    a.setIfInBounds i (a.getD i 0 + x.getD (i + k) 0 * Cx.conj (h.getD (h.size - k - 1) 0))) h.size hstep]
-  rw [foldl_acc_cell (0 : Cx ℝ) (fun v k => v + x.getD (i + k) 0 * Cx.conj (h.getD (h.size - k - 1) 0)) i,
-    Array.setIfInBounds_setIfInBounds, acc_eq_foldl]
-  by_cases hi : i < r.size
-  · rw [getD_setIfInBounds]; simp [hi]
-  · rw [Array.setIfInBounds_eq_of_size_le (Nat.le_of_not_lt hi), Array.setIfInBounds_eq_of_size_le (Nat.le_of_not_lt hi)]
+  rw [acc_eq_foldl]
+  first
+  | -- accumulate into the cell `r[i]`
+    (refine Eq.trans (foldl_range_acc_cell (0 : Cx ℝ)
+         (fun v k => v + x.getD (i + k) 0 * Cx.conj (h.getD (h.size - k - 1) 0)) i h.size _ ?_ _)
+       (set_foldl_acc_init (0 : Cx ℝ) 0 r i _ _)
+     intro a k hk
+     simp only [Gen.firCConvKernel_loop1, gzeroC_eq, Gen.conjc, Cx.addAssign, Int.ofNat_eq_natCast]
+     rw [ptrGet_eq 0 x _ (i + k) (by omega), ptrGet_eq 0 h _ (h.size - k - 1) (by omega), ptrGet_eq 0 a _ i (by omega),
+       ptrSet_eq a _ i _ (by omega)]
+     first | done | rfl)
+  | -- accumulate into a local scalar, store it into `r[i]` after the loop
+    (refine congrArg (r.setIfInBounds i)
+       (foldl_range_congr _ (fun v k => v + x.getD (i + k) 0 * Cx.conj (h.getD (h.size - k - 1) 0)) h.size ?_ 0)
+     intro v k hk
+     simp only [Gen.firCConvKernel_loop1, gzeroC_eq, Gen.conjc, Cx.addAssign, Int.ofNat_eq_natCast]
+     rw [ptrGet_eq 0 x _ (i + k) (by omega), ptrGet_eq 0 h _ (h.size - k - 1) (by omega)]
+     first | done | rfl)
 
 /-- **`FirFilter<cmplx_t>::conv`, generated = model** (taps enter conjugated: `Cx.conj`, the regenerated `cmplx_t::conj`) -/
 theorem firCConv_eq (x h : Array (Cx ℝ)) : Gen.firCConv x h = Fir.conv (0 : Cx ℝ) Cx.conj x h := by
